@@ -152,7 +152,7 @@ def spec_expressible(rr):
             return depth <= 1 and all(isinstance(p, tuple) for p in v.rparts)
         if isinstance(v, dict):
             return all(isinstance(k, str) for k in v) and all(ok_val(x, depth + 1) for x in v.values())
-        if isinstance(v, list):
+        if isinstance(v, (list, tuple)):      # (specs are python structures: tuples are fine there, unlike in JSON)
             return all(ok_val(x, depth + 1) for x in v)
         return v is None or isinstance(v, (bool, int, float, str))
 
